@@ -43,7 +43,10 @@ def run(chk):
     rng = chk.rng
     thorough = chk.tier == "thorough"
     pool = gen.all_strings("ACD", 3)
-    fns = {"symdel": nn.symdel, "nearest_neighbor": nn.nearest_neighbor, "hash_based": nn.hash_based, "kdtree": nn.kdtree}
+    fns = {"symdel": nn.symdel, "nearest_neighbor": nn.nearest_neighbor, "hash_based": nn.hash_based, "kdtree": nn.kdtree,
+           # the same searches with the progress bar switched on (tqdm wrappers around the loops must not change what is iterated)
+           "hash_based+progress": lambda *a, **k: nn.hash_based(*a, progress=True, **k),
+           "symdel+progress": lambda *a, **k: nn.symdel(*a, progress=True, **k)}
 
     inputs = [["CAAA", "CDDD", "CADA", "CAAA"], ["AC", "A", "AC", "AD", ""], ["A"]]
     for _ in range(6 if not thorough else 40):
@@ -102,6 +105,8 @@ def run(chk):
             if e == "hash_based" and k > 1 and max(len(x) for x in xs) > 6:
                 continue
             cases.append((e, list(xs), None, k))
+            if e in ("hash_based", "symdel") and len(cases) < 60:
+                cases.append((e + "+progress", list(xs), None, k))
         cases.append(("symdel", list(xs), qs, k))
         cases.append(("nearest_neighbor", list(xs), qs, k))
         if len(cases) < 40:
@@ -147,6 +152,10 @@ def run(chk):
                 chk.violation(f"C10|{e}|{ot}|raises-{val}", f"{e}(output_type={ot}) raised {val}", {**meta, "output_type": ot})
                 continue
             if ot == "triplets":
+                canon = core.call_real(lambda: core.canon_trips(val))
+                if canon[0] != "ok":
+                    chk.violation(f"C10|{e}|triplets|malformed", f"{e} triplets are not (int, int, number) triples: {str(val)[:200]}", {**meta, "real": str(val)[:1000]})
+                    continue
                 if core.canon_trips(val) != spec_trip:
                     chk.violation(f"C10|{e}|triplets|differs", f"{e} triplets differ from the specification",
                                   {**meta, "real": str(core.canon_trips(val))[:2000], "spec": str(spec_trip)[:2000]})
